@@ -236,8 +236,8 @@ impl Debugger {
 
         if let Some(ret_addr) = self.debugee.return_addr(ecx.pid_on_focus())? {
             let brkpt_is_set = self.breakpoints.get_enabled(ret_addr).is_some();
-            if brkpt_is_set {
-                self.continue_execution()?;
+            let stop_reason = if brkpt_is_set {
+                self.continue_execution()?
             } else {
                 let brkpt =
                     Breakpoint::new_temporary(debug_info.pathname(), ret_addr, location.pid);
@@ -245,13 +245,12 @@ impl Debugger {
                 // remove the temporary breakpoint even if continue fails
                 let continue_result = self.continue_execution();
                 self.remove_breakpoint(Address::Relocated(ret_addr))?;
-                continue_result?;
-            }
-        }
+                continue_result?
+            };
 
-        if self.debugee.is_exited() {
-            // todo add exit code here
-            return Err(ProcessExit(0));
+            if let StopReason::DebugeeExit(code) = stop_reason {
+                return Err(ProcessExit(code));
+            }
         }
 
         self.ecx_update_location()?;
@@ -399,6 +398,9 @@ impl Debugger {
             StopReason::Watchpoint(pid, addr, ty) => {
                 return Ok(StepResult::wp_interrupt_quite(pid, addr, ty));
             }
+            StopReason::DebugeeExit(code) => {
+                return Err(ProcessExit(code));
+            }
             _ => {}
         }
 
@@ -423,11 +425,6 @@ impl Debugger {
                     _ => {}
                 }
             }
-        }
-
-        if self.debugee.is_exited() {
-            // todo add exit code here
-            return Err(ProcessExit(0));
         }
 
         self.ecx_update_location()?;
